@@ -37,9 +37,16 @@ type baseHook struct {
 	Exact  bool     `json:"exact"` // the identities select exactly the instructions the text selects
 }
 
+type baseLoop struct {
+	Anchor string `json:"anchor"`
+	Index  int    `json:"index"` // position of the loop among the function's loops, in source order
+	Total  int    `json:"total"`
+}
+
 type baseFunc struct {
 	Locals []baseLocal `json:"locals"`
 	Hooks  []baseHook  `json:"hooks"`
+	Loops  []baseLoop  `json:"loops,omitempty"`
 }
 
 type Baseline struct {
@@ -317,6 +324,21 @@ func (s *Session) collectBaseline(into *Baseline) {
 			x.mapHooksText()
 		}()
 		bf := &baseFunc{Locals: localTable(fn)}
+		func() {
+			defer func() { recover() }()
+			for _, lc := range fc.Loops {
+				lc.Used = 0
+			}
+			x.analyzeLoops()
+			order := x.loopsInSourceOrder()
+			for _, lc := range fc.Loops {
+				for i, li := range order {
+					if li.lc == lc {
+						bf.Loops = append(bf.Loops, baseLoop{Anchor: lc.Anchor, Index: i, Total: len(order)})
+					}
+				}
+			}
+		}()
 		// instructions of fn and its closures
 		var instrs []ssa.Instruction
 		var walk func(f *ssa.Function)
@@ -428,3 +450,15 @@ func plansKeys() map[string]bool {
 }
 
 var _ = sort.Strings
+
+// loopsInSourceOrder lists the loops of the function under verification by source position.
+func (x *Exec) loopsInSourceOrder() []*loopInfo {
+	var out []*loopInfo
+	for _, li := range x.loops {
+		if li.stmt != nil {
+			out = append(out, li)
+		}
+	}
+	sort.SliceStable(out, func(i, j int) bool { return out[i].stmt.Pos() < out[j].stmt.Pos() })
+	return out
+}
